@@ -54,7 +54,8 @@ if keep and res.get('confirmed'):
     dst = os.path.join(V, 'refactorings', mid)
     os.makedirs(dst, exist_ok=True)
     for f in ('patch.diff', 'equiv.py'):
-        shutil.copy(os.path.join(d, f), dst)
+        if os.path.abspath(d) != os.path.abspath(dst):
+            shutil.copy(os.path.join(d, f), dst)
     meta['confirmed_by_lead'] = {k: res.get(k) for k in ('equiv_same', 'tests')}
     meta['check_result'] = {'silent': res['silent'], 'runs': res['check']}
     json.dump(meta, open(os.path.join(dst, 'meta.json'), 'w'), indent=1)
